@@ -7,6 +7,8 @@ CONSTANTS MaxAtom = 2
  DiscardOnDelete = FALSE
  RecalcAllOnCommit = FALSE
  InitSlotsOnCopy = TRUE
+ RestoreCacheOnAbort = TRUE
+ FullFlushOnSpecialDelete = TRUE
  Elems <- SmallElems
  Orders <- SmallOrders
  Charges <- SmallCharges
